@@ -207,3 +207,8 @@ func (v *VerifRuntime) SetQueueStore(store queue.Store) { v.state.setQueueStore(
 func VerifBuildDispatchRoutes(compiled config.Compiled) []dispatcher.RouteConfig {
 	return buildDispatchRoutes(compiled)
 }
+
+// VerifMapEgressRules converts compiled egress rules into the dispatcher's form as run() does.
+func VerifMapEgressRules(rules []config.EgressRule) []dispatcher.EgressRule {
+	return mapEgressRules(rules)
+}
